@@ -53,8 +53,29 @@ theorem ule_eq_not_ult (a b : BitVec 32) : b.ule a = !(a.ult b) := by
 /-! ### shapes produced by the translator -/
 
 theorem ebind_ok {ε α β} (x : α) (f : α → Except ε β) : (Except.ok x >>= f) = f x := rfl
-theorem resOfGen_ok (e : Gen.Execution) (h : e.DirectWrites = []) : resOfGen (Except.ok e) = Res.ok (toOutcome e) := by
+theorem resOfGen_ok (e : Gen.Execution) (h : wfExe e = true) : resOfGen (Except.ok e) = Res.ok (toOutcome e) := by
   simp [resOfGen, h]
+
+theorem isRegisterChange_zero (rd : Reg) (v : Word) :
+    ((Gen.IsRegisterChange rd v).1 != 0 || (Gen.IsRegisterChange rd v).2 == 0) = true := by
+  unfold Gen.IsRegisterChange Gen.Reg.Zero
+  by_cases h : rd = 0 <;> simp [h]
+
+@[simp] theorem wfExe_wr (rd : Reg) (v : Word) :
+    wfExe { RegisterChange := true, Register := (Gen.IsRegisterChange rd v).1,
+            RegisterValue := (Gen.IsRegisterChange rd v).2 } = true := by
+  have := isRegisterChange_zero rd v
+  simp only [wfExe, List.isEmpty_nil, Bool.not_true, Bool.false_or, Bool.not_false, Bool.and_true, Bool.true_and, this]
+
+@[simp] theorem wfExe_wr_next (rd : Reg) (v t : Word) :
+    wfExe { RegisterChange := true, Register := (Gen.IsRegisterChange rd v).1,
+            RegisterValue := (Gen.IsRegisterChange rd v).2, NextPc := t, PcChange := true } = true := by
+  have := isRegisterChange_zero rd v
+  simp only [wfExe, List.isEmpty_nil, Bool.not_true, Bool.false_or, Bool.not_false, Bool.and_true, Bool.true_and, this]
+
+@[simp] theorem wfExe_noreg (e : Gen.Execution) (h1 : e.RegisterChange = false) (h2 : e.DirectWrites = []) :
+    wfExe e = true := by
+  simp [wfExe, h1, h2]
 theorem resOfSpec_ok (o : Spec.Outcome) : resOfSpec (Except.ok o) = Res.ok o := rfl
 
 
@@ -65,6 +86,11 @@ theorem toOutcome_wr (rd : Reg) (v : Word) :
   by_cases h : rd = 0
   · simp [h]
   · simp [h]
+
+theorem resOfGen_wr (rd : Reg) (v : Word) :
+    resOfGen (Except.ok { RegisterChange := true, Register := (Gen.IsRegisterChange rd v).1,
+                          RegisterValue := (Gen.IsRegisterChange rd v).2 }) = Res.ok (Spec.wr rd v) := by
+  rw [resOfGen_ok _ (wfExe_wr rd v), toOutcome_wr]
 
 /-- `slt`-style join: both arms write the same destination -/
 theorem res_set_flag (rd : Reg) (c : Bool) :
@@ -125,7 +151,7 @@ theorem res_jal (labels : GoMap String Word) (l : String) (rd : Reg) (v : Word) 
       Except.ok { reg := (Spec.wr rd v).reg, mem := o.mem, next := o.next, ret := o.ret }) := by
   unfold Spec.jump labelsOf GoMap.get Spec.wr Gen.IsRegisterChange Gen.Reg.Zero
   cases h : labels.find? l <;> by_cases hr : rd = 0 <;>
-    simp [hr, resOfGen, resOfSpec, toOutcome, pure, Except.pure, throw, throwThe, MonadExceptOf.throw, bind, Except.bind]
+    simp [hr, resOfGen, wfExe, resOfSpec, toOutcome, pure, Except.pure, throw, throwThe, MonadExceptOf.throw, bind, Except.bind]
 
 theorem toOutcome_wr_next (rd : Reg) (v t : Word) :
     toOutcome { RegisterChange := true, Register := (Gen.IsRegisterChange rd v).1,
@@ -159,7 +185,7 @@ theorem res_lh (rd : Reg) (mem : List Byte) (hm : mem.length = 2) :
   match mem, hm with
   | [b0, b1], _ =>
     simp only [GoInt.index, List.getElem?_cons_zero, List.getElem?_cons_succ, pure, Except.pure,
-      Proofs.Bytes.i32_char, Proofs.Bytes.bind_ok, resOfGen, toOutcome_wr, Spec.loadValue, GoInt.conv, if_true]
+      Proofs.Bytes.i32_char, Proofs.Bytes.bind_ok, resOfGen, wfExe_wr, toOutcome_wr, Spec.loadValue, GoInt.conv, if_true]
     rw [trunc16]
 
 theorem res_lw (rd : Reg) (mem : List Byte) (hm : mem.length = 4) :
@@ -169,7 +195,7 @@ theorem res_lw (rd : Reg) (mem : List Byte) (hm : mem.length = 4) :
   match mem, hm with
   | [b0, b1, b2, b3], _ =>
     simp only [GoInt.index, List.getElem?_cons_zero, List.getElem?_cons_succ, pure, Except.pure,
-      Proofs.Bytes.i32_char, Proofs.Bytes.bind_ok, resOfGen, toOutcome_wr, Spec.loadValue, if_true]
+      Proofs.Bytes.i32_char, Proofs.Bytes.bind_ok, resOfGen, wfExe_wr, toOutcome_wr, Spec.loadValue, if_true]
 
 end Proofs.Opcodes
 
